@@ -309,14 +309,17 @@ impl C15 {
             let valid: Vec<&refmodel::corpus::CorpusFile> = c.iter().filter(|f| f.valid).collect();
             String::from_utf8_lossy(&valid[rng.below(valid.len())].bytes).into_owned()
         } else {
-            let mut cfg = refmodel::gen::GenCfg::random(rng);
-            cfg.bom = false;
+            // (a byte-order mark in front is one more character for positions to count)
+            let cfg = refmodel::gen::GenCfg::random(rng);
             refmodel::gen::gen_doc(rng, cfg).text
         };
         ctx.set_input(&text);
         let d = decode(&text);
-        if d.verdict != Verdict::Valid || d.tree_nl.is_some() {
+        if !matches!(d.verdict, Verdict::Valid | Verdict::Undecided(refmodel::decode::U1::C)) || d.tree_nl.is_some() {
             return;
+        }
+        if d.bom {
+            ctx.count("mismatch/document-with-bom");
         }
         let tree = d.tree.as_ref().unwrap();
         let (mut shape, _) = crate::c13::infer(rng, tree, 0);
